@@ -66,6 +66,11 @@ def plan(ctx, prop):
                 for rep in range(1 if q else 3):
                     add("asan", asan, ["--mode", "random", "--maxn", maxn, "--ops", ops, "--type", t, "--cfg", cfg, "--seed", sd * 100 + rep],
                         "random maxn%d ops%d %s cfg%d seed%d" % (maxn, ops, TN[t], cfg, sd * 100 + rep))
+    if prop in (12, 14):
+        # keys and values that are plain integers in the pointer, i.e. the NULL pointer is one of the keys and one of the values
+        for t in types:
+            for cfg in ([1, 9, 17] if prop == 14 else [1]):
+                add("asan", asan, ["--mode", "intkeys", "--ops", 40000 if q else 2000000, "--type", t, "--cfg", cfg, "--seed", sd], "intkeys %s cfg%d" % (TN[t], cfg))
     return jobs
 
 
@@ -80,8 +85,8 @@ def run(ctx, prop):
         for o in r.json_lines():
             if o.get("ev") == "stats":
                 for k in ("ops", "histories", "full_checks", "stop_traversals", "inserts", "replaces", "remove_hit", "remove_miss",
-                          "clears", "lookups", "compares", "destroy_events", "avl_checked", "rb_checked"):
-                    tot[k] = tot.get(k, 0) + o[k]
+                          "clears", "lookups", "compares", "destroy_events", "avl_checked", "rb_checked", "intkey_ops", "intkey_notifier_calls", "intkey_notifier_calls_with_null"):
+                    tot[k] = tot.get(k, 0) + o.get(k, 0)
                 tot["max_n"] = max(tot.get("max_n", 0), o["max_n"])
                 key = (o["tree"],)
                 shapes[key] = max(shapes.get(key, 0), o["distinct_shapes"])
@@ -101,7 +106,7 @@ def run(ctx, prop):
                    "counted per driver process in a hash set, and only the largest per-process count of each tree type is summed "
                    "(a lower bound on the union). Generation: every op sequence over a 3-5 key universe up to the stated length, every "
                    "insertion permutation followed by every single removal and a random removal order, and seeded random runs with "
-                   "ascending/descending/zig-zag/remove-min/max/root/two-children phases.")
+                   "ascending/descending/zig-zag/remove-min/max/root/two-children phases; plus integer-in-pointer histories in which NULL is a stored key and a stored value (notifier calls compared as multisets).")
     cov["totals"] = tot
     cov["histories_by_mode"] = modes
     cov["removal_cases_children_x_depthbucket"] = rm
